@@ -193,6 +193,18 @@ func (d *stubDest) has(body []byte) bool {
 	return false
 }
 
+// hasOn: accepted under exactly this topic name
+func (d *stubDest) hasOn(body []byte, topic string) bool {
+	d.mu.Lock()
+	defer d.mu.Unlock()
+	for _, p := range d.accepted {
+		if p.Topic == topic && bytes.Equal(p.Body, body) {
+			return true
+		}
+	}
+	return false
+}
+
 func sdFrame(typ int32, data []byte) []byte {
 	var b bytes.Buffer
 	binary.Write(&b, binary.BigEndian, int32(len(data)+4))
